@@ -21,101 +21,157 @@ def _config_class(ctx: Ctx) -> ClassInfo:
     raise AnalysisError('GraphConfigImpl not found')
 
 
+def _schema_class(ctx: Ctx, name: str) -> ClassInfo:
+    for sc in ctx.p.classes_by_name.get(name, []):
+        if sc.module.name.endswith('visualization.schema'):
+            return sc
+    raise AnalysisError(f'schema class {name} not found (VW anchors vanished)')
+
+
+def _ctor_events(g: Graph, ci: ClassInfo) -> List[Ev]:
+    return [ev for ev in g.events('call') if any(t[0] == 'class' and t[1] is ci for t in ev.info.get('targets', ()))]
+
+
 def rule_nodes_and_edges(ctx: Ctx, out: Collector) -> None:
     """VW-1: exactly one node entry per DAG node on every path.  VW-2: one edge entry per DAG edge, no filter."""
+    from ..engine import follow_values
     p = ctx.p
     ci = _config_class(ctx)
+    node_cls = _schema_class(ctx, 'Node')
+    attrs_cls = _schema_class(ctx, 'NodeAttributes')
     gen_nodes = None
     gen_edges = None
+    g = None
     for m in ci.methods.values():
         src = unparse(m.node)
-        if 'graph.nodes' in src and 'schema.Node(' in src:
-            gen_nodes = m
-        if 'graph.edges' in src and 'schema.Edge(' in src:
+        if 'graph.nodes' in src and any(isinstance(n, ast.Return) and n.value is not None for n in ast.walk(m.node)):
+            gm = ctx.graph(m.fid, depth=4)
+            if _ctor_events(gm, node_cls) and gen_nodes is None:
+                gen_nodes, g = m, gm
+        if 'graph.edges' in src and ('schema.Edge(' in src or 'Edge(' in src):
             gen_edges = m
     if gen_nodes is None or gen_edges is None:
         raise AnalysisError('node / edge generators of the viewer not found (VW-1/2 anchors vanished)')
-    g = ctx.graph(gen_nodes.fid, depth=1)
-    loops = [lp for lp in g.events('loop') if lp.inst.parent is None and lp.info.get('comp') is None
-             and unparse(lp.info['iter']).endswith('graph.nodes')]
+    loops = [lp for lp in g.events('loop') if lp.inst.parent is None and unparse(lp.info['iter']).endswith('graph.nodes')]
     cons = f'{gen_nodes.module.name}::{gen_nodes.qualname}::one entry per node of graph.nodes'
+    entries: List[Tuple[ast.AST, object]] = []      # (entry expression, activation)
+    K = None
     if len(loops) != 1:
         out.bad('VW-1', cons, p.loc(gen_nodes, gen_nodes.node), f'{len(loops)} loops over graph.nodes (expected exactly one, unfiltered)')
     else:
         lp = loops[0]
+        K = ('elem', sym.term(p, lp.info['iter'], lp.inst))
         region = loop_region(g, lp)
-        appends = {m for m in region if g.evs[m].kind == 'call' and isinstance(g.evs[m].node.func, ast.Attribute)
-                   and g.evs[m].node.func.attr == 'append' and g.evs[m].inst.parent is None}
+        comp = lp.info.get('comp')
+        if comp is not None:
+            adds = {m for m in region if g.evs[m].kind == 'yieldelt' and g.evs[m].info.get('comp') is comp}
+            for m in adds:
+                entries.append((getattr(comp, 'elt', None), g.evs[m].inst))
+        else:
+            adds = {m for m in region if g.evs[m].kind == 'call' and isinstance(g.evs[m].node.func, ast.Attribute)
+                    and g.evs[m].node.func.attr == 'append' and g.evs[m].inst.parent is None}
+            for m in adds:
+                c = g.evs[m].node
+                if c.args:
+                    entries.append((c.args[0], g.evs[m].inst))
         tsucc = [m for m, lab in g.succ[lp.id] if lab == 'T']
         problems = []
-        if find_path(g, tsucc[0], {lp.id}, avoid=appends, labels=NORMAL_LABELS) is not None and tsucc[0] not in appends:
+        if not adds:
+            problems.append('no entry is added in the loop')
+        elif find_path(g, tsucc[0], {lp.id}, avoid=adds, labels=NORMAL_LABELS) is not None and tsucc[0] not in adds:
             problems.append('an iteration can add no entry')
-        for a in appends:
+        for a in adds:
             nxt = reach(g, [a], stop={lp.id}, labels=NORMAL_LABELS)
-            if nxt & (appends - {a}):
+            if nxt & (adds - {a}):
                 problems.append('an iteration can add two entries')
         leaves = [g.evs[m] for m in region if g.evs[m].kind in ('break', 'return', 'continue') and g.evs[m].inst.parent is None]
         if leaves:
             problems.append(f'the loop is left / skipped early ({leaves[0].kind})')
-        # the entry carries the loop variable as id
-        idok = True
-        for a in appends:
-            call = g.evs[a].node
-            node_ctor = call.args[0] if call.args else None
-            if isinstance(node_ctor, ast.Call):
-                kws = {k.arg: k.value for k in node_ctor.keywords}
-                if not (isinstance(kws.get('id'), ast.Name) and kws['id'].id in {x.id for x in ast.walk(lp.info['target']) if isinstance(x, ast.Name)}):
-                    idok = False
-        if not idok:
-            problems.append('an entry does not carry the DAG node id')
-        # returned list is the appended list
+        if comp is not None:
+            # the comprehension itself must be what the generator returns
+            rets = [n for n in FuncEnv.of(p, gen_nodes).own_nodes() if isinstance(n, ast.Return) and n.value is not None]
+            vals = [e for r in rets for e, i in follow_values(p, r.value, g.root_inst)]
+            if not any(v is comp or (isinstance(v, ast.Call) and v.args and v.args[0] is comp and unparse(v.func) in ('list', 'tuple'))
+                       for v in vals):
+                problems.append('the list built over graph.nodes is not what the generator returns')
         if not problems:
-            out.ok('VW-1', cons, lp.where(), f'{len(appends)} append sites, exactly one on every path of an iteration')
+            out.ok('VW-1', cons, lp.where(), f'{len(adds)} entry site(s), exactly one on every path of an iteration')
         else:
             out.bad('VW-1', cons, lp.where(), 'the node list of the graph description is not one entry per DAG node: ' + '; '.join(sorted(set(problems))))
-    # virtual / real classification
-    src = unparse(gen_nodes.node)
+    # ---- the entries: schema.Node objects keyed by the DAG node id; virtual / real classification
+    ctors: List[Tuple[ast.Call, object]] = []
+    stray = []
+    for expr, inst in entries:
+        if expr is None:
+            continue
+        for e, i in follow_values(p, expr, inst):
+            if isinstance(e, ast.Call) and any(t[0] == 'class' and t[1] is node_cls for t in FuncEnv.of(p, i.unit).resolve_call(e)):
+                ctors.append((e, i))
+            else:
+                stray.append(unparse(e)[:50])
     cons = f'{gen_nodes.module.name}::{gen_nodes.qualname}::synthetic nodes are virtual and typed by prefix, real nodes carry declared data'
-    ok = 'is_virtual=True' in src and 'by_prefix(' in src and 'is_virtual=False' in src and 'node.node_type' in src \
-        and 'node.name' in src and 'getdoc' in src
-    if ok:
+    problems = []
+    if stray:
+        problems.append(f'an entry is not a schema.Node ({stray[0]})')
+    virt = real = 0
+    real_ctors = []
+    for c, i in ctors:
+        kws = {k.arg: sym.term(p, k.value, i) for k in c.keywords if k.arg is not None}
+        if K is not None and kws.get('id') != K:
+            problems.append(f'an entry does not carry the DAG node id (id={sym.show(kws.get("id"))})')
+        if 'data' in kws:
+            real += 1
+            real_ctors.append((c, i, kws))
+            if kws.get('is_virtual') != ('const', False):
+                problems.append('a described node is marked virtual')
+        else:
+            virt += 1
+            if kws.get('is_virtual') != ('const', True):
+                problems.append('a synthetic node is not marked virtual')
+            ty = kws.get('type')
+            if not (ty is not None and 'by_prefix' in sym.show(ty) and K is not None and sym.mentions(ty, lambda s_: s_ == K)):
+                problems.append(f'a synthetic node is not typed by the prefix of its id (type={sym.show(ty)})')
+    if ctors and (virt == 0 or real == 0):
+        problems.append('node entries do not distinguish synthetic from real nodes')
+    if not ctors:
+        problems.append('no schema.Node entry found')
+    if not problems:
         out.ok('VW-1', cons, p.loc(gen_nodes, gen_nodes.node), 'virtual: NodeType.by_prefix(id); real: node_type, name, verbose_name, doc')
     else:
         out.bad('VW-1', cons, p.loc(gen_nodes, gen_nodes.node), 'node entries do not distinguish synthetic (virtual, typed by id prefix) from '
-                                                                'real nodes (declared name, type, documentation)')
-    # real nodes are described by the attributes of the DAG's own node object
-    node_var = None
-    for n_ in ast.walk(gen_nodes.node):
-        if isinstance(n_, ast.Assign) and isinstance(n_.targets[0], ast.Name) and isinstance(n_.value, ast.Call) \
-                and ('_get_node' in unparse(n_.value.func) or 'node_map' in unparse(n_.value.func)):
-            node_var = n_.targets[0].id
+                                                                'real nodes (declared name, type, documentation): ' + '; '.join(sorted(set(problems))[:3]))
+    # ---- real nodes are described by the attributes of the DAG's own node object
     cons = f'{gen_nodes.module.name}::{gen_nodes.qualname}::real node entries carry the attributes of the DAG node itself'
-    if node_var is None:
-        raise AnalysisError('the node object of the DAG is not looked up in the node generator (VW-1 anchor vanished)')
+    if not real_ctors:
+        raise AnalysisError('no described (real) node entry in the node generator (VW-1 anchor vanished)')
     problems = []
-    found_attrs = False
-    for c in ast.walk(gen_nodes.node):
-        if isinstance(c, ast.Call) and unparse(c.func).endswith('NodeAttributes'):
-            found_attrs = True
-            kws = {k.arg: k.value for k in c.keywords}
-            for fld in ('name', 'verbose_name'):
-                v = kws.get(fld)
-                if not (isinstance(v, ast.Attribute) and v.attr == fld and isinstance(v.value, ast.Name) and v.value.id == node_var):
-                    problems.append(f'{fld}={unparse(v) if v is not None else None}')
-        if isinstance(c, ast.Call) and unparse(c.func).endswith('schema.Node'):
-            kws = {k.arg: k.value for k in c.keywords}
-            if 'data' in kws:
-                v = kws.get('type')
-                if not (isinstance(v, ast.Attribute) and v.attr == 'node_type' and isinstance(v.value, ast.Name) and v.value.id == node_var):
-                    problems.append(f'type={unparse(v) if v is not None else None}')
-    if not found_attrs:
-        problems.append('no NodeAttributes entry')
+
+    def is_dag_node(t) -> bool:
+        """t is the DAG's own node object of this id: a look-up in node_map keyed by the loop element"""
+        return isinstance(t, tuple) and 'node_map' in sym.show(t) and K is not None and sym.mentions(t, lambda s_: s_ == K) \
+            and t[0] == 'call'
+    for c, i, kws in real_ctors:
+        ty = kws.get('type')
+        if not (isinstance(ty, tuple) and ty[0] == 'attr' and ty[2] == 'node_type' and is_dag_node(ty[1])):
+            problems.append(f'type={sym.show(ty)}')
+        dexpr = next(k.value for k in c.keywords if k.arg == 'data')
+        found_attrs = False
+        for e, ii in follow_values(p, dexpr, i):
+            if isinstance(e, ast.Call) and any(t[0] == 'class' and t[1] is attrs_cls for t in FuncEnv.of(p, ii.unit).resolve_call(e)):
+                found_attrs = True
+                akws = {k.arg: sym.term(p, k.value, ii) for k in e.keywords if k.arg is not None}
+                for fld in ('name', 'verbose_name'):
+                    v = akws.get(fld)
+                    if not (isinstance(v, tuple) and v[0] == 'attr' and v[2] == fld and is_dag_node(v[1])):
+                        problems.append(f'{fld}={sym.show(v)}')
+        if not found_attrs:
+            problems.append('no NodeAttributes entry')
     if not problems:
-        out.ok('VW-1', cons, p.loc(gen_nodes, gen_nodes.node), f'name, verbose_name, type read from {node_var} = self._get_node(node_id)')
+        out.ok('VW-1', cons, p.loc(gen_nodes, gen_nodes.node), 'name, verbose_name, type read from the node_map entry of the node id')
     else:
         out.bad('VW-1', cons, p.loc(gen_nodes, gen_nodes.node), f'a real node is not described by its own declared attributes '
-                                                                f'({", ".join(problems)} instead of {node_var}.<attr>): nodes built from a '
-                                                                f'generic class with their own name are shown with the template\'s name')
+                                                                f'({", ".join(sorted(set(problems)))} instead of <node_map[id]>.<attr>): nodes built '
+                                                                f'from a generic class with their own name are shown with the template\'s name')
     # ---- VW-2
     cons = f'{gen_edges.module.name}::{gen_edges.qualname}::one entry per edge of graph.edges, unfiltered'
     comps = [n for n in ast.walk(gen_edges.node) if isinstance(n, (ast.ListComp, ast.GeneratorExp))]
@@ -310,10 +366,25 @@ def rule_types(ctx: Ctx, out: Collector) -> None:
     cons = f'{nt.module.name}::NodeType.by_prefix::scans every member with startswith'
     if bp is None:
         raise AnalysisError('NodeType.by_prefix not found')
-    btxt = unparse(bp.node)
-    loops = [x for x in ast.walk(bp.node) if isinstance(x, ast.For)]
-    if loops and unparse(loops[0].iter) == 'cls' and 'startswith' in btxt and not any(isinstance(x, (ast.Break, ast.Continue)) for x in ast.walk(bp.node)):
-        out.ok('VW-5', cons, p.loc(bp, bp.node), 'for item in cls: if value.startswith(item): return')
+    params = bp.params()
+    cls_name = params[0] if params else 'cls'
+    scans = []           # (iterable, target, conditions) of every loop / comprehension over the enum
+    for x in ast.walk(bp.node):
+        if isinstance(x, ast.For):
+            conds = [i.test for i in x.body if isinstance(i, ast.If)]
+            scans.append((x.iter, x.target, conds, len([i for i in x.body if not (isinstance(i, ast.Expr) and isinstance(i.value, ast.Constant))]) == len(conds)))
+        elif isinstance(x, ast.comprehension):
+            scans.append((x.iter, x.target, list(x.ifs), True))
+
+    def is_prefix_test(cond, target) -> bool:
+        return isinstance(cond, ast.Call) and isinstance(cond.func, ast.Attribute) and cond.func.attr == 'startswith' \
+            and len(cond.args) == 1 and isinstance(target, ast.Name) and (
+                (isinstance(cond.args[0], ast.Name) and cond.args[0].id == target.id)
+                or unparse(cond.args[0]) in (f'{target.id}.value', f'str({target.id})')) \
+            and isinstance(cond.func.value, ast.Name) and cond.func.value.id in params[1:]
+    good = [sc for sc in scans if isinstance(sc[0], ast.Name) and sc[0].id == cls_name and len(sc[2]) == 1 and is_prefix_test(sc[2][0], sc[1]) and sc[3]]
+    if good and len(scans) == len(good) and not any(isinstance(x, (ast.Break, ast.Continue)) for x in ast.walk(bp.node)):
+        out.ok('VW-5', cons, p.loc(bp, bp.node), 'every member of the enum is tested with value.startswith(member), first match wins')
     else:
         out.bad('VW-5', cons, p.loc(bp, bp.node), 'by_prefix does not test every member of NodeType as a prefix')
     # ---- VW-6
